@@ -278,8 +278,37 @@ func (w *World) checkGlobalNonNil() error {
 					if fn != pkg.Func("init") {
 						return fmt.Errorf("global-nonnil %s: assigned in %s", key, fn)
 					}
-					switch st.Val.(type) {
+					switch v := st.Val.(type) {
 					case *ssa.MakeMap, *ssa.Alloc, *ssa.MakeChan, *ssa.MakeSlice:
+						stores++
+					case *ssa.Call:
+						// a constructor of this repository whose every return value is an allocation
+						callee := v.Common().StaticCallee()
+						if callee == nil || !w.inRepo(callee) || !returnsAllocation(callee) {
+							return fmt.Errorf("global-nonnil %s: initialised by a call that is not a plain constructor", key)
+						}
+						stores++
+					case *ssa.UnOp, *ssa.MakeInterface, *ssa.ChangeInterface:
+						// copy of another package's exported variable (trusted to be non-nil: listed as an assumption)
+						var src ssa.Value = st.Val
+						for {
+							if mi, ok := src.(*ssa.MakeInterface); ok {
+								src = mi.X
+							} else if ci, ok := src.(*ssa.ChangeInterface); ok {
+								src = ci.X
+							} else {
+								break
+							}
+						}
+						u, ok := src.(*ssa.UnOp)
+						if !ok {
+							return fmt.Errorf("global-nonnil %s: initialised with %T", key, st.Val)
+						}
+						eg, ok := u.X.(*ssa.Global)
+						if !ok || w.inRepoPkg(eg.Pkg) {
+							return fmt.Errorf("global-nonnil %s: not a copy of a dependency's global", key)
+						}
+						externalGlobalsAssumed[key] = eg.Pkg.Pkg.Path() + "." + eg.Name()
 						stores++
 					default:
 						return fmt.Errorf("global-nonnil %s: initialised with %T, not an allocation", key, st.Val)
@@ -318,4 +347,28 @@ func (w *World) compSortOf(comp string) string {
 	w.pmMu.Lock()
 	defer w.pmMu.Unlock()
 	return w.compSorts[comp]
+}
+
+func returnsAllocation(fn *ssa.Function) bool {
+	n := 0
+	for _, b := range fn.Blocks {
+		for _, ins := range b.Instrs {
+			if r, ok := ins.(*ssa.Return); ok {
+				if len(r.Results) != 1 {
+					return false
+				}
+				if _, ok := r.Results[0].(*ssa.Alloc); !ok {
+					return false
+				}
+				n++
+			}
+		}
+	}
+	return n > 0
+}
+
+var externalGlobalsAssumed = map[string]string{}
+
+func (w *World) inRepoPkg(p *ssa.Package) bool {
+	return p != nil && strings.HasPrefix(p.Pkg.Path(), modulePath+"/")
 }
